@@ -95,13 +95,17 @@ class _Runner(object):
         dispatched_before = set()
 
         def make(lid, stops):
+            # what a listener returns is its own business: None, False, 0, True, "" in turn
+            ret = (None, False, 0, True, "")[lid % 5]
             if stops:
                 def listener(event, name, dispatcher):
                     log.append((lid, event, name, dispatcher))
                     event.stop_propagation()
+                    return ret
             else:
                 def listener(event, name, dispatcher):
                     log.append((lid, event, name, dispatcher))
+                    return ret
             return listener
 
         for step, op in enumerate(seq):
@@ -331,8 +335,10 @@ def bounded(ctx):
 # A registration is (event, priority, callable); the same callable may be registered more than once, at different
 # priorities.  Each REGISTRATION takes part in the dispatch at its own priority (this is what the dispatcher's tables
 # hold and what get_listeners reports); the ordering rule of the property applies to registrations.
-SHARED_OPS = [("r", p, c) for p in PRIORITIES for c in ("S", "T", "n")] + [("d",)]
-# S: one shared non-stopping callable; T: one shared stopping callable; n: a new non-stopping callable every time
+SHARED_OPS = [("r", p, c) for p in PRIORITIES for c in ("S", "T", "n", "R")] + [("d",)]
+# S: one shared non-stopping callable; T: one shared stopping callable; n: a new non-stopping callable every time;
+# R: a new callable that, the first time it is called, registers one more listener for the same event at its own priority
+#    (a registration made during a dispatch: the new listener takes part in the NEXT dispatch, not in the running one)
 
 
 def run_shared(seq):
@@ -350,6 +356,20 @@ def run_shared(seq):
     shared = {"S": mk("S", False), "T": mk("T", True)}
     regs = []  # (priority, tag, stops) in registration order
     fresh = 0
+    pending = []  # registrations made by listeners during the running dispatch: (priority, tag, stops)
+
+    def mk_registering(tag, prio):
+        state = {"done": False}
+
+        def listener(event, name, dispatcher):
+            log.append(tag)
+            if not state["done"]:
+                state["done"] = True
+                child = tag + "+"
+                dispatcher.add_listener("A", mk(child, False), prio)
+                pending.append((prio, child, False))
+            return False
+        return listener
     for step, op in enumerate(seq):
         if op[0] == "r":
             _, prio, c = op
@@ -357,6 +377,10 @@ def run_shared(seq):
                 tag = "n%d" % fresh
                 fresh += 1
                 fn = mk(tag, False)
+            elif c == "R":
+                tag = "R%d" % fresh
+                fresh += 1
+                fn = mk_registering(tag, prio)
             else:
                 tag, fn = c, shared[c]
             disp.add_listener("A", fn, prio)
@@ -371,17 +395,20 @@ def run_shared(seq):
                 if r[2]:
                     break
             del log[:]
+            del pending[:]
             disp.dispatch("A")
             if log != expected:
                 return ("shared-callable|dispatch-order", "registrations %r: dispatch called %r, model %r" % (regs, log, expected), step)
+            regs.extend(pending)  # registered during the dispatch: known from now on
     return None
 
 
 def _bounded_shared(ctx):
-    depth = 4 if ctx.quick else 6
+    depth = 4 if ctx.quick else 5
     ctx.check("shared_callable",
               "all %d^%d op sequences over {register(event A, priority in {-5,0,7}, callable in {shared non-stopping S, shared "
-              "stopping T, a new one}), dispatch(A)}: the same callable registered repeatedly (also at different priorities) -- "
+              "stopping T, a new one, a new one that registers a further listener when first called}), dispatch(A)}: the same "
+              "callable registered repeatedly (also at different priorities), registrations made during a dispatch -- "
               "every dispatch calls the registrations in priority order, registration order inside a priority, up to the "
               "first stopping one" % (len(SHARED_OPS), depth))
     seen = {}
